@@ -915,6 +915,31 @@ fn gen_c04(ctx: &mut Ctx) {
             }
         }
     }
+    // every first byte at the lengths in between (4..=9, 15, 17) for the types the protocol uses and two it does not
+    for t in [0u8, 1, 2, 3, 4, 5, 6, 7, 0x42] {
+        for b0 in 0..=255u16 {
+            for len in [4usize, 5, 6, 7, 8, 9, 15, 17] {
+                if !ctx.tier_thorough && (b0 as usize + len + t as usize) % 3 != 0 && len != 4 {
+                    continue;
+                }
+                let mut d = vec![b0 as u8];
+                d.extend(rng.bytes(len - 1));
+                f2m_case(ctx, 0x0102 + t as u16, t, &d, (b0 + len as u16) % 2 == 0, "in-between-lengths");
+            }
+        }
+    }
+    // data that BEGINS with the frame's own address field (either byte order) followed by 0..4 more bytes
+    for t in 0..=6u8 {
+        for a in [0u16, 1, 3, 0x00FF, 0x0100, 0x0102, 0x1234, 0xA5A5, 0xFFFF] {
+            for extra in 0..=4usize {
+                for le in [false, true] {
+                    let mut d = if le { vec![(a & 0xFF) as u8, (a >> 8) as u8] } else { vec![(a >> 8) as u8, (a & 0xFF) as u8] };
+                    d.extend(match extra { 0 => vec![], 1 => vec![0], 2 => vec![0xA5, 0xA5], 3 => vec![0, 0, 0], _ => vec![0xFF, 0, 0xFF, 0] });
+                    f2m_case(ctx, a, t, &d, extra % 2 == 0, "data-begins-with-address");
+                }
+            }
+        }
+    }
     // data equal to the frame's own address field (big- and little-endian), across the address range
     let step = if ctx.tier_thorough { 1u32 } else { 37 };
     for t in 0..=6u8 {
